@@ -1,5 +1,10 @@
 import TabulaModel.Util
 import TabulaModel.Model.Session
+import TabulaModel.Model.MapOrder
+import TabulaModel.Model.MapOrderCsv
+import TabulaModel.Model.Process
+import TabulaModel.Model.OptHeap
+import TabulaModel.Model.Extraction
 namespace Tabula.C03H
 open Tabula Tabula.Session
 
@@ -24,6 +29,181 @@ def parseEntry (s : String) : Option (Name × Nat) :=
     pure (n.map (·.toNat), f)
   | _ => none
 
+/-! ### map-order ops -/
+open Tabula.MapOrder
+
+/-- `-` = empty list, else `sep`-separated items -/
+def listOf {α : Type} (sep : String) (f : String → Option α) (s : String) : Option (List α) :=
+  if s == "-" then some [] else (s.splitOn sep).mapM f
+
+def pairOf {α β : Type} (sep : String) (f : String → Option α) (g : String → Option β) (s : String) : Option (α × β) :=
+  match s.splitOn sep with
+  | [a, b] => do pure (← f a, ← g b)
+  | _ => none
+
+def hexStr (s : String) : Option (List Nat) := (unhex s).map fun b => b.map (·.toNat)
+
+def showHex (l : List Nat) : String := if l.isEmpty then "-" else hex (l.map fun n => UInt8.ofNat n)
+
+def showInts (l : List Int) : String := if l.isEmpty then "-" else ",".intercalate (l.map toString)
+
+def showTol : Tol → String
+  | .dflt => "dflt" | .std => "std" | .floor => "floor" | .gap g => s!"gap:{g}"
+
+def isPermInts (a b : List Int) : Bool := sortInts a == sortInts b
+
+def isPermStrs (a b : List (List Nat)) : Bool := Export.sortStrings a == Export.sortStrings b
+
+/-- re-order the entries of a map as the keys `ks` say (an iteration of the map) -/
+def arrange {β : Type} (m : List (Int × β)) (ks : List Int) : Option (List (Int × β)) :=
+  ks.mapM fun k => (assocGet m k).map fun v => (k, v)
+
+def voteOp (kind vals itKeys : String) : String :=
+  match listOf "," String.toInt? itKeys with
+  | none => "bad-op"
+  | some ks =>
+    let run (counts : List (Int × Int)) (fin : List (Int × Int) → String) : String :=
+      if !isPermInts (counts.map Prod.fst) ks then "bad-it"
+      else match arrange counts ks with
+        | some it => fin it
+        | none => "bad-it"
+    match kind with
+    | "m" => match listOf "," String.toInt? vals with
+      | some xs => run (marginCounts xs) fun it => toString (detectLeftMarginVia xs it)
+      | none => "bad-op"
+    | "a" => match listOf "," String.toInt? vals with
+      | some as => run (alignCounts as) fun it => toString (detectDominantAlignmentVia as it)
+      | none => "bad-op"
+    | "f" => match listOf "," (pairOf ":" String.toInt? String.toInt?) vals with
+      | some ps => run (fontCounts ps) fun it =>
+          match detectBodyFontSizeVia ps it with | some b => toString b | none => "-"
+      | none => "bad-op"
+    | _ => "bad-op"
+
+/-- sub-dictionary entries `hexname:id+hexname:id` -/
+def parseSub (s : String) : Option (List (List Nat × Nat)) :=
+  if s.isEmpty then some [] else (s.splitOn "+").mapM (pairOf ":" hexStr String.toNat?)
+
+/-- `hexname=o<id>` or `hexname=d<sub>` -/
+def parseREntry (s : String) : Option (List Nat × RVal) :=
+  match s.splitOn "=" with
+  | [k, v] => do
+    let k ← hexStr k
+    match v.toList with
+    | 'o' :: r => (String.ofList r).toNat?.map fun i => (k, RVal.other i)
+    | 'd' :: r => (parseSub (String.ofList r)).map fun c => (k, RVal.dict c)
+    | _ => none
+  | _ => none
+
+def showMVal (subs : List (List Nat)) : Option MVal → String
+  | none => "-"
+  | some (.other i) => s!"o{i}"
+  | some (.dict m) => "d{" ++ ",".intercalate (subs.map fun n =>
+      match m n with | some i => toString i | none => "-") ++ "}"
+
+def mergeOp (parent child itParent itChild probes : String) : String :=
+  match listOf "," parseREntry parent, listOf "," parseREntry child,
+        listOf "," parseREntry itParent, listOf "," parseREntry itChild,
+        listOf "," (pairOf ":" hexStr (fun s => if s.isEmpty then some [] else (s.splitOn "+").mapM hexStr)) probes with
+  | some p, some c, some ip, some ic, some pr =>
+    if !isPermStrs (p.map Prod.fst) (ip.map Prod.fst) || !isPermStrs (c.map Prod.fst) (ic.map Prod.fst) then "bad-it"
+    else
+      let m := mergeResourcesVia p ip ic (subOf ip) (subOf ic)
+      ";".intercalate (pr.map fun (k, subs) => showMVal subs (m k))
+  | _, _, _, _, _ => "bad-op"
+
+/-! ### the process: families of extractors on several documents -/
+open Tabula.Builder Tabula.Process Tabula.OptHeap
+
+/-- `<pages or x>:<f|r>:<format letter>:<messy bits or ->` -/
+def parseDoc (s : String) : Option Doc :=
+  match s.splitOn ":" with
+  | [n, base, fmt, messy] => do
+    let world : World ← (if n == "x" then some ⟨false, none⟩ else n.toNat?.map fun k => ⟨true, some k⟩)
+    let f : Fmt ← (match fmt with
+      | "p" => some .pdf | "d" => some .docx | "o" => some .odt | "x" => some .xlsx
+      | "t" => some .pptx | "h" => some .html | "e" => some .epub | _ => none)
+    let m := if messy == "-" then [] else messy.toList.map (· == '1')
+    pure { world := world, fmt := f, fromReader := base == "r", messy := m }
+  | _ => none
+
+def parseBCall (s : String) : Option BCall :=
+  match s.toList with
+  | 'P' :: r => (listOf "+" String.toInt? (String.ofList r)).map .pages
+  | 'R' :: r => match (String.ofList r).splitOn "_" with
+    | [a, b] => do pure (.pageRange (← a.toInt?) (← b.toInt?))
+    | _ => none
+  | ['H'] => some .excludeHeaders
+  | ['F'] => some .excludeFooters
+  | ['B'] => some .excludeHeadersAndFooters
+  | ['J'] => some .joinParagraphs
+  | ['C'] => some .byColumn
+  | ['L'] => some .preserveLayout
+  | _ => none
+
+def parseTerm : String → Option Term
+  | "text" => some .text | "frag" => some .fragments | "doc" => some .document
+  | "lines" => some .lines | "paras" => some .paragraphs | "chunks" => some .chunks
+  | "md" => some .toMarkdown | _ => none
+
+/-- `<fam>/d<i>/<call>`, `<fam>/t<i>/<term>`, `<fam>/n<i>` (PageCount), `<fam>/c<i>` (Close) -/
+def parseCallP (s : String) : Option Call :=
+  match s.splitOn "/" with
+  | [f, o] => do
+    let f ← f.toNat?
+    match o.toList with
+    | 'n' :: r => (String.ofList r).toNat?.map fun i => ⟨f, .nonTerm i .pageCount⟩
+    | 'c' :: r => (String.ofList r).toNat?.map fun i => ⟨f, .close i⟩
+    | _ => none
+  | [f, o, a] => do
+    let f ← f.toNat?
+    match o.toList with
+    | 'd' :: r => do pure ⟨f, .derive (← (String.ofList r).toNat?) (← parseBCall a)⟩
+    | 't' :: r => do pure ⟨f, .term (← (String.ofList r).toNat?) (← parseTerm a)⟩
+    | _ => none
+  | _ => none
+
+def showAns : Ans → String
+  | (.none, _) => "none"
+  | (.closed, _) => "closed"
+  | (.count n, _) => s!"count:{n}"
+  | (.flag, _) => "flag"
+  | (.pages l, w) => "pages:" ++ (if l.isEmpty then "-" else "+".intercalate (l.map toString)) ++ s!"/w{w}"
+  | (.whole, w) => s!"whole/w{w}"
+  | (.err, _) => "err"
+  | (.bad, _) => "bad"
+
+/-- the process with every family's page lists kept on a heap of Go slices (`Model/OptHeap.lean`):
+after each configuration call the page list of EVERY extractor of the family is read back from
+the heap, so what the terminal operations see is what the slices show -/
+structure HProc where
+  fams : Proc
+  heaps : List HFam
+
+def hproc0 (docs : List Doc) : HProc :=
+  { fams := proc0 docs, heaps := docs.map fun d => hbase d.base }
+
+def syncPages (f : Fam) (h : HFam) : Fam :=
+  { f with st := { f.st with exts := List.zipWith (fun (e : Ext) x => { e with opts := { e.opts with pages := readOpt h.H x.sl } }) f.st.exts h.xs } }
+
+def hprocStep (docs : List Doc) (p : HProc) (c : Call) : HProc × Ans :=
+  let (fams1, a) := procStep docs p.fams c
+  match c.op, p.heaps[c.fam]?, fams1[c.fam]? with
+  | .derive i b, some h, some f =>
+    let h1 := h.derive growDouble i b
+    ({ fams := fams1.set c.fam (syncPages f h1), heaps := p.heaps.set c.fam h1 }, a)
+  | _, _, _ => ({ p with fams := fams1 }, a)
+
+def hprocRun (docs : List Doc) : HProc → List Call → List Ans
+  | _, [] => []
+  | p, c :: cs => let (p1, a) := hprocStep docs p c; a :: hprocRun docs p1 cs
+
+def parseAccess (s : String) : Option (Access Nat) :=
+  match s.toList with
+  | ['c'] => some .clear
+  | 'g' :: r => (String.ofList r).toNat?.map .get
+  | _ => none
+
 def handle (op : String) (args : List String) : String :=
   match op, args with
   | "c03.sess", calls =>
@@ -39,6 +219,77 @@ def handle (op : String) (args : List String) : String :=
     | some es, some ks =>
       let m := registerAll es
       ",".intercalate (ks.map fun k => match m (k.map (·.toNat)) with | some f => toString f | none => "-")
+    | _, _ => "bad-op"
+  | "c03.tol", [frags, it] =>
+    match listOf "," (pairOf ":" String.toInt? String.toInt?) frags, listOf "," String.toInt? it with
+    | some fs, some it =>
+      if !isPermInts it (ySet (fs.map Prod.fst)) then "bad-it"
+      else showTol (toleranceVia sortInts sortInts fs it)
+    | _, _ => "bad-op"
+  | "c03.vote", [kind, vals, itKeys] => voteOp kind vals itKeys
+  | "c03.csvcols", [flags, chunkKeys, itKeys] =>
+    match flags.toList, listOf ";" (listOf "," hexStr) chunkKeys, listOf "," hexStr itKeys with
+    | [t, m, e], some cks, some it =>
+      let cfg : Export.Config := { includeText := t == '1', includeMetadata := m == '1', includeEmbeddings := e == '1' }
+      if !isPermStrs it (collectKeysVia id cks []) then "bad-it"
+      else ",".intercalate ((collectCSVColumnsVia Export.sortStrings cfg it).map showHex)
+    | _, _, _ => "bad-op"
+  | "c03.merge", [parent, child, itParent, itChild, probes] => mergeOp parent child itParent itChild probes
+  | "c03.glyphs", [entries, probes] =>
+    -- entries `code=rune` / `code=-` (glyph name without a Unicode value); probes `code:baseRune`
+    match listOf "," (pairOf "=" String.toNat? (fun s => if s == "-" then some none else s.toNat?.map some)) entries,
+          listOf "," (pairOf ":" String.toNat? String.toNat?) probes with
+    | some es, some ps =>
+      let m := copySome (fun (x : Option Nat) => x) es FMap.empty
+      ",".intercalate (ps.map fun (c, base) => match m c with | some r => toString r | none => toString base)
+    | _, _ => "bad-op"
+  | "c03.numbers", [levels] =>
+    match listOf "," String.toInt? levels with
+    | some ls => showInts (numberItems List.reverse ls)
+    | none => "bad-op"
+  | "c03.nav", [entries] =>
+    -- `hexid=flags`, flags a subset of "nx" (`-` = none): n = properties has "nav", x = NCX media type
+    match listOf "," (pairOf "=" hexStr (fun s => some s)) entries with
+    | some es =>
+      let pick (c : Char) := match minMatch Export.sortStrings (fun (f : String) => f.toList.contains c) es with
+        | some (k, _) => showHex k
+        | none => "-"
+      pick 'n' ++ "/" ++ pick 'x'
+    | none => "bad-op"
+  | "c03.images", [entries] =>
+    -- `hexname=kind`, kind i = an image XObject that extracts, anything else is skipped
+    match listOf "," (pairOf "=" hexStr (fun s => some s)) entries with
+    | some es =>
+      let r := collectSorted Export.sortStrings (fun k (v : String) => if v == "i" then some k else none) es
+      if r.isEmpty then "-" else ",".intercalate (r.map showHex)
+    | none => "bad-op"
+  | "c03.regions", [entries] =>
+    -- `hexpattern=confidenceRank`
+    match listOf "," (pairOf "=" hexStr String.toInt?) entries with
+    | some es =>
+      let r := regionsSorted Export.sortStrings (fun k (v : Int) => some (k, v)) (fun x => x.2) es
+      if r.isEmpty then "-" else ",".intercalate (r.map fun x => showHex x.1)
+    | none => "bad-op"
+  | "c03.world", [docs, sched] =>
+    match listOf ";" parseDoc docs, listOf "," parseCallP sched with
+    | some ds, some cs => ";".intercalate ((hprocRun ds (hproc0 ds) cs).map showAns)
+    | _, _ => "bad-op"
+  | "c03.page", [rt, fonts, keys, toks, frags, xs, aligns, paras] =>
+    match listOf "," parseEntry fonts, listOf "," hexStr keys, parseCall toks,
+          listOf "," (pairOf ":" String.toInt? String.toInt?) frags, listOf "," String.toInt? xs,
+          listOf "," String.toInt? aligns, listOf "," (pairOf ":" String.toInt? String.toInt?) paras with
+    | some fd, some ks, some tk, some fr, some lx, some al, some pa =>
+      let ρ := if rt == "rev" then Extraction.Runtime.rev else Extraction.Runtime.ref
+      let f := Extraction.pageFacts ρ { fontDict := fd, tokens := tk, frags := fr, lineXs := lx, aligns := al, paras := pa }
+      "|".intercalate [",".intercalate (ks.map fun k => match f.fonts k with | some i => toString i | none => "-"),
+        "[" ++ showOps f.ops ++ "]", showTol f.tol, toString f.margin, toString f.align,
+        (match f.bodySize with | some b => toString b | none => "-")]
+    | _, _, _, _, _, _, _ => "bad-op"
+  | "c03.cache", [spec, accesses] =>
+    match listOf "," (pairOf "=" String.toNat? String.toInt?) spec, listOf "," parseAccess accesses with
+    | some sp, some as =>
+      let r := (accessRun (fun n => Tabula.MapOrder.assocGet sp n) [] as).2
+      ",".intercalate (r.map fun | some v => toString v | none => "-")
     | _, _ => "bad-op"
   | _, _ => "bad-op"
 
